@@ -641,6 +641,22 @@ def _check_fasta(ctx, case, root, E, fa):
     path = os.path.join(root, fname)
     with open(path, "wb") as fh:
         fh.write(text.encode("ascii"))
+    # A read that FAILS first: the line source raises in the middle of a record (a truncated archive, an undecodable
+    # chunk, a user iterator that gives up).  The caller catches that; the valid reads below must not see any of it.
+    if len(text) % 3 == 0:
+        class _Gone(Exception):
+            pass
+
+        def broken():
+            yield ">abandoned record\n"
+            yield "MKVLAAGIDE\n"
+            yield "ACDEFGHIKL\n"
+            raise _Gone()
+        try:
+            for _ in fa.read_fasta(broken()):
+                pass
+        except _Gone:
+            ctx.count("fasta:failed-read-first")
     try:
         label = "file %r type=%r text=%r" % (fname, explicit, text if len(text) < 160 else text[:157] + "...")
 
